@@ -35,7 +35,7 @@ type SwitchRec struct {
 }
 
 type SchedSpec struct {
-	Kind     string      `json:"kind"`          // "walk" | "pct" | "replay"
+	Kind     string      `json:"kind"`          // "walk" | "pct" | "hot" | "replay"
 	K        int         `json:"k,omitempty"`   // walk: switch probability 1/2^k per step
 	D        int         `json:"d,omitempty"`   // pct: number of priority change points
 	Seed     uint64      `json:"seed,omitempty"`
@@ -90,6 +90,7 @@ type concSim struct {
 	switchesInRnd int
 	runaway       bool
 	spins           int
+	hotYields       int
 	blockedSwitches int
 	deadlock        string
 }
@@ -131,6 +132,21 @@ func (s *concSim) pick() int {
 		}
 		if t := s.top(-1); t >= 0 {
 			return t
+		}
+		return s.cur
+	case "hot":
+		// preempt where state is in flight: right after a filesystem call, a lock or a pool
+		// operation the baton moves with probability 1/2, elsewhere rarely
+		mask := uint64(1<<9) - 1
+		if simhook.Hot > 0 {
+			simhook.Hot--
+			mask = 1
+			s.hotYields++
+		}
+		if s.rng.U64()&mask == 0 {
+			if r := s.runnable(s.cur); len(r) > 0 {
+				return r[s.rng.Intn(len(r))]
+			}
 		}
 		return s.cur
 	default: // walk
@@ -503,7 +519,7 @@ func init() { register(propC09{}) }
 func (propC09) ID() string    { return "C09" }
 func (propC09) Level() string { return "exploration" }
 func (propC09) Rule() string {
-	return "a case = 2..6 (thorough ..12) independent seeded build+configure+render jobs run as tasks of a cooperative scheduler with a yield before every statement of package jen (strategies: random walk with switch probability 1/2^k, k in {1,3,6,9}; PCT-style priorities with 1..4 change points), compared job by job with the same job run alone and with a sequential run in a seeded order, with a deep digest of jen's package-level variables checked every 256 steps; or (mode share) 2..3 Files with different settings sharing sub-statements, rendered one after another in a seeded order and compared with private rebuilds; distinct = distinct switch-sequence digest; non-trivial = >=2 tasks and >=1 baton switch inside a render call (share mode: a shared statement rendered by >=2 Files)"
+	return "a case = 2..6 (thorough ..12) independent seeded build+configure+render jobs run as tasks of a cooperative scheduler with a yield before every statement of package jen (strategies: random walk with switch probability 1/2^k, k in {1,3,6,9}; PCT-style priorities with 1..4 change points; hot-spot: preemption with probability 1/2 right after a filesystem, lock or pool operation and 1/512 elsewhere), compared job by job with the same job run alone and with a sequential run in a seeded order, with a deep digest of jen's package-level variables checked every 256 steps; or (mode share) 2..3 Files with different settings sharing sub-statements, rendered one after another in a seeded order and compared with private rebuilds; distinct = distinct switch-sequence digest; non-trivial = >=2 tasks and >=1 baton switch inside a render call (share mode: a shared statement rendered by >=2 Files)"
 }
 func (propC09) Runs(tier string) int {
 	if tier == "thorough" {
@@ -630,8 +646,10 @@ func (propC09) Gen(seed uint64, tier string) *Case {
 			cc.Jobs = append(cc.Jobs, ConcJob{Recipe: genJob(r, nil, false), Exec: ExecSpec{Mode: "shuffle", Seed: Mix(seed, uint64(100+i))}})
 		}
 		cc.Order = r.Perm(nj)
-		if r.Chance(0.3) {
+		if x := r.Intn(10); x < 3 {
 			cc.Sched = SchedSpec{Kind: "pct", D: r.Range(1, 4), Seed: Mix(seed, 9)}
+		} else if x < 6 {
+			cc.Sched = SchedSpec{Kind: "hot", Seed: Mix(seed, 9)}
 		} else {
 			cc.Sched = SchedSpec{Kind: "walk", K: []int{1, 3, 6, 9}[r.Intn(4)], Seed: Mix(seed, 9)}
 		}
@@ -776,6 +794,7 @@ func (propC09) Check(c *Case) (*Violation, *RunInfo) {
 	ri.count("baton_switches_inside_render", s.switchesInRnd)
 	ri.count("sched_"+cc.Sched.Kind, 1)
 	ri.count("lock_contention_switches", s.blockedSwitches)
+	ri.count("yields_right_after_fs_lock_or_pool_operations", s.hotYields)
 	if s.deadlock != "" && viol == nil {
 		viol = &Violation{Rule: "C09-deadlock", Detail: "independent jobs deadlock: " + s.deadlock}
 	}
